@@ -1,7 +1,8 @@
 #!/bin/bash
 # runs every check of MANIFEST.json at the given tier and prints a one-line summary each
 tier=${1:-quick}
-for p in $(python3 -c "import json;print(' '.join(c['property_id'] for c in json.load(open('/verif/MANIFEST.json'))['checks']))"); do
+cd "$(dirname "$(readlink -f "$0")")"
+for p in $(python3 -c "import json;print(' '.join(c['property_id'] for c in json.load(open('MANIFEST.json'))['checks']))"); do
   out=$(./check $p $tier 2>&1); rc=$?
   echo "$p rc=$rc $(echo "$out" | tail -1)"
   echo "$out" | grep -E "^VIOLATION|^  signature|HARNESS-ERROR|KNOWN-FINDING" | cut -c1-300
